@@ -101,6 +101,13 @@ CORPUS = [
     {"per": [2, 2], "pixels": [], "o": mk(diags=1, mad=2, nnz=1, tol=1e-5), "chunk": None},
     {"per": [2, 2], "pixels": [], "o": mk(diags=0, tol=1e-5), "chunk": 3},
     {"per": [2, 2], "pixels": [], "o": mk(cis=True, diags=1, tol=1e-5), "chunk": 3},
+    # D30 regression (fixed): empty cooler, cis_only, chunksize None used to raise ValueError; all chunk sizes / modes agree
+    {"per": [2, 2], "pixels": [], "o": mk(cis=True, diags=1, tol=1e-5), "chunk": None},
+    {"per": [2, 2], "pixels": [], "o": mk(cis=True, diags=0, nnz=1, tol=1e-5), "chunk": 1},
+    {"per": [1, 2], "pixels": [], "o": mk(cis=True, diags=0, mad=1, tol=1e-5, rescale=False), "chunk": None},
+    {"per": [2, 2], "pixels": [], "o": mk(diags=0, tol=1e-5), "chunk": 1},
+    {"per": [2, 2], "pixels": [], "o": mk(trans=True, diags=0, tol=1e-5), "chunk": 1},
+    {"per": [2, 2], "pixels": [], "o": mk(trans=True, diags=1, tol=1e-5), "chunk": 3},
     {"per": [2, 2], "pixels": [], "o": mk(trans=True, diags=0, mad=1, tol=1e-5), "chunk": None},
     {"per": [1, 3], "pixels": [[0, 0, 5], [0, 1, 2], [0, 3, 4], [1, 2, 3], [1, 3, 1], [2, 3, 6], [2, 2, 2]], "o": mk(cis=True, diags=0, tol=1e-6)},
     {"per": [1, 3], "pixels": [[0, 0, 5], [0, 1, 2], [0, 3, 4], [1, 2, 3], [1, 3, 1], [2, 3, 6], [2, 2, 2]], "o": mk(cis=True, diags=1, nnz=1, tol=1e-6)},
